@@ -64,7 +64,7 @@ class TSLParser(BaseParser):
                 break
             if self.parse_optional_characters("offset"):
                 self._parse_token(MLIRTokenKind.COLON, "Expected colon")
-                offset = self.parse_integer()
+                offset = self._parse_int_or_question()
                 break
             tstrides.append(self._parse_tiled_stride())
             self._parse_optional_token(MLIRTokenKind.COMMA)
